@@ -62,9 +62,15 @@ func (f *failoverStatus) report(ctx context.Context, witness string) *status.Sta
 	leaderFailed := len(f.witnesses) > f.failover.Quorum()
 
 	if leaderFailed {
+		// The reports collected so far are consumed by this failover. Start
+		// from scratch afterwards so that witnesses of this leader are not
+		// counted against its successor (or kept forever, since the timer
+		// which would expire them is stopped here).
 		if f.timer != nil {
 			f.timer.Stop()
+			f.timer = nil
 		}
+		f.witnesses = make(map[string]struct{})
 		f.mu.Unlock()
 		return f.failover.Failover(ctx)
 	}
